@@ -866,7 +866,10 @@ void prop(Src& s, Ctx& ctx) {
     }
 
     // ---- run
-    IPv4Reassembler reasm;
+    // both constructors (the explicit one takes the only overlapping technique there is), chosen by the number of datagrams
+    IPv4Reassembler reasm_default;
+    IPv4Reassembler reasm_explicit(IPv4Reassembler::NONE);
+    IPv4Reassembler& reasm = ds.size() % 2 ? reasm_default : reasm_explicit;
     RefReassembler ref(ds);
     // NT rule: >= 3 fragments not in order, or >= 2 concurrent datagrams, or a duplicate
     bool out_of_order3 = false;
